@@ -25,6 +25,76 @@ def has_catch_all(trystmt):
     return any('*' in handler_catches(h) for h in trystmt.handlers)
 
 
+
+def stream_read_by_shape(rdm):
+    """the spelling BytearrayStream.read has on the pinned tree (fallback when the class cannot be folded)"""
+    npar = params(rdm)[0]
+    rets = [r for r in walk_local(rdm) if isinstance(r, ast.Return)]
+    slices = [a for a in walk_local(rdm) if isinstance(a, ast.Assign) and isinstance(a.value, ast.Subscript) and dotted(a.value.value) == 'self.buffer'
+              and isinstance(a.value.slice, ast.Slice)]
+    take = [a for a in slices if a.value.slice.upper is not None and U(a.value.slice.upper) == npar and (a.value.slice.lower is None or U(a.value.slice.lower) == '0') and isinstance(a.targets[0], ast.Name)]
+    adv = [a for a in slices if a.value.slice.lower is not None and U(a.value.slice.lower) == npar and a.value.slice.upper is None and dotted(a.targets[0]) == 'self.buffer']
+    return len(take) == 1 and len(adv) == 1 and any(isinstance(r.value, ast.Name) and r.value.id == take[0].targets[0].id for r in rets)
+
+
+def fold_stream_adt(ctx, bs):
+    """BytearrayStream as an abstract data type, folded over byte *windows* (pv/fold.py WinBytes: which bytes of which input, never their
+    content): for every input length L <= 4 and request sizes n1, n2 <= L + 2,
+        s = BytearrayStream(d);  r1 = s.read(n1);  [s.write(e)];  r2 = s.read(n2)
+    r1 must be d[0:min(n1, L)], the unread rest must be d[min(n1, L):] (as seen by .buffer, length(), len(), peek()), written bytes follow
+    the unread rest, r2 continues where r1 stopped.  Returns (ok, text) or None when the class leaves what can be folded."""
+    from ..fold import Folder, Unfoldable, Raised, WinBytes
+    models = {'bytes': lambda x=b'', *a: x if isinstance(x, WinBytes) else bytes(x), 'bytearray': lambda x=b'', *a: x if isinstance(x, WinBytes) else bytes(x)}
+    n_cases = 0
+    bad = None
+
+    def note(msg):
+        nonlocal bad
+        bad = bad or msg
+    try:
+        for L in range(0, 5):
+            for n1 in range(0, L + 3):
+                for wr in (0, 2):
+                    for n2 in range(0, L + 3 + wr):
+                        f = Folder(models=models, steps=20000)
+                        o = f.new_object(bs)
+                        ms = o['__methods__']
+                        if not {'__init__', 'read'} <= set(ms):
+                            return None
+                        d = WinBytes.of('d', L)
+                        try:
+                            f.call_method(ms['__init__'], o, [d], {})
+                            r1 = f.call_method(ms['read'], o, [n1], {})
+                            k1 = min(n1, L)
+                            if r1 != d[0:k1]:
+                                note('for %d stored bytes read(%d) returns %r' % (L, n1, r1))
+                                continue
+                            rest = d[k1:]
+                            if 'buffer' in o['__props__'] or 'buffer' in o['__attrs__']:
+                                bv = f.call_method(o['__props__']['buffer'][0], o, [], {}) if 'buffer' in o['__props__'] else o['buffer']
+                                if bv != rest:
+                                    note('for %d stored bytes, after read(%d) the buffer holds %r' % (L, n1, bv))
+                            for nm in ('length', '__len__'):
+                                if nm in ms and f.call_method(ms[nm], o, [], {}) != len(rest):
+                                    note('for %d stored bytes, after read(%d) %s() is wrong' % (L, n1, nm))
+                            if 'peek' in ms and f.call_method(ms['peek'], o, [], {}) != rest:
+                                note('for %d stored bytes, after read(%d) peek() does not show the unread rest' % (L, n1))
+                            if wr and 'write' in ms:
+                                e = WinBytes.of('e', wr)
+                                f.call_method(ms['write'], o, [e], {})
+                                rest = rest + e
+                            r2 = f.call_method(ms['read'], o, [n2], {})
+                            if r2 != rest[0:min(n2, len(rest))]:
+                                note('for %d stored bytes, read(%d)%s then read(%d) returns %r' % (L, n1, ' + write(2 bytes)' if wr else '', n2, r2))
+                            n_cases += 1
+                        except Raised as ex:
+                            note('%s raised for %d stored bytes, read(%d)' % (ex.name, L, n1))
+    except Unfoldable as ex:
+        ctx.count('stream_adt_unfoldable', 1)
+        return None
+    ctx.count('stream_adt_cases_folded', n_cases)
+    return (bad is None, bad or 'folded over %d histories of byte windows' % n_cases)
+
 def run(ctx):
     src = ctx.src
     st = src.tree(SESSION)
@@ -441,15 +511,12 @@ def run(ctx):
     bs = get_class(ut, 'BytearrayStream')
     rdm = get_method(bs, 'read')
     usite = '%s:%s BytearrayStream.read' % (UTILS, rdm.lineno)
-    npar = params(rdm)[0]
-    rets = [r for r in walk_local(rdm) if isinstance(r, ast.Return)]
-    slices = [a for a in walk_local(rdm) if isinstance(a, ast.Assign) and isinstance(a.value, ast.Subscript) and dotted(a.value.value) == 'self.buffer'
-              and isinstance(a.value.slice, ast.Slice)]
-    take = [a for a in slices if a.value.slice.upper is not None and U(a.value.slice.upper) == npar and (a.value.slice.lower is None or U(a.value.slice.lower) == '0') and isinstance(a.targets[0], ast.Name)]
-    adv = [a for a in slices if a.value.slice.lower is not None and U(a.value.slice.lower) == npar and a.value.slice.upper is None and dotted(a.targets[0]) == 'self.buffer']
-    okbs = len(take) == 1 and len(adv) == 1 and any(isinstance(r.value, ast.Name) and r.value.id == take[0].targets[0].id for r in rets)
-    ctx.check(okbs, 'C12.R6', 'BytearrayStream.read|slice-and-advance', usite, 'read(n) returns buffer[0:n] and advances the buffer by n',
-              'BytearrayStream.read does not return the first n bytes and advance by n')
+    verdict = fold_stream_adt(ctx, bs)
+    if verdict is None:
+        verdict = (stream_read_by_shape(rdm), 'matched by shape')
+        ctx.need(verdict[0], 'unrecognised construct: BytearrayStream can neither be folded over byte windows nor matched')
+    ctx.check(verdict[0], 'C12.R6', 'BytearrayStream.read|slice-and-advance', usite, 'read(n) returns the first min(n, available) unread bytes and leaves exactly the rest, in order, for buffer / length / the next read / write (%s)' % verdict[1],
+              'BytearrayStream.read does not return the first n bytes and advance by n: %s' % verdict[1])
     # ---------------- R7 short reads of primitive values are detected
     ctx.rule('C12.R7', 'in the primitive decoders every stream.read(n) result is checked for shortness: it is unpacked by struct (exact size), indexed ([0] on a one-byte read), or its len() is compared in a test that raises; otherwise a truncated or over-long length field decodes into a value shorter than its length field says (BytearrayStream.read clips silently)')
     PRIM = 'kmip/core/primitives.py'
